@@ -31,6 +31,8 @@ func init() {
 			ruleCounterDirection(r, "F10", "/transport/websocket", "/transport/quic", "/transport/webtransport", "/transport")
 			ruleC13F11(r)
 			ruleC13F12(r)
+			r.borrow("C14", func() { ruleC14B6(r) }) // concurrent datagram writers never share a sequence number (their segments would be merged into one message)
+			rulePoolNoEscape(r, "F13")
 		},
 	})
 }
@@ -743,4 +745,83 @@ func ruleC13F12(r *Run) {
 		detail = "the return at " + posOf(p, w) + " is reachable without closing the message writer: the frame is never finished, the peer never sees the message (and the next Writer call blocks or interleaves)"
 	}
 	r.Check(name+" closes its writer", w == nil, where, name, detail)
+}
+
+// rulePoolNoEscape: the bytes of a pooled buffer are gone once the buffer is back in the pool. A function that puts a
+// buffer back (directly or in a deferred closure) does not return, store or send the slice Bytes() gave it for that
+// buffer: the next user of the pool would overwrite the message the caller is still holding.
+func rulePoolNoEscape(r *Run, id string) {
+	r.Begin(id, "pooled memory does not leave with the message: where a function returns a buffer to a sync.Pool, no result of Bytes() on that buffer is returned, stored or sent by the function (directly or re-sliced) — what leaves is a copy", 2)
+	p := r.P
+	n := 0
+	per := map[*ssa.Function]int{}
+	for _, fn := range p.Funcs {
+		pk := fnPkgPath(fn)
+		if !strings.HasPrefix(pk, modPath+"/encoding") && !strings.HasPrefix(pk, modPath+"/transport") {
+			continue
+		}
+		allInstrs(fn, func(ins ssa.Instruction) {
+			cc := instrCall(ins)
+			if cc == nil || !isCallNamed(ins, "sync.Pool.Put") {
+				return
+			}
+			buf := cc.Args[1]
+			if mi, ok := buf.(*ssa.MakeInterface); ok {
+				buf = mi.X
+			}
+			target := canonVal(buf)
+			top := topFunc(fn)
+			n++
+			per[top]++
+			var bad ssa.Instruction
+			withAnon(top, func(g *ssa.Function) {
+				allInstrs(g, func(x ssa.Instruction) {
+					c, isCall := x.(*ssa.Call)
+					if !isCall {
+						return
+					}
+					o := calleeObj(&c.Call)
+					if o == nil || o.Name() != "Bytes" || len(c.Call.Args) == 0 || canonVal(c.Call.Args[0]) != target {
+						return
+					}
+					var follow func(v ssa.Value, depth int)
+					follow = func(v ssa.Value, depth int) {
+						if depth > 6 || v.Referrers() == nil {
+							return
+						}
+						for _, ref := range *v.Referrers() {
+							switch y := ref.(type) {
+							case *ssa.Return, *ssa.Send, *ssa.MapUpdate:
+								bad = ref
+							case *ssa.Store:
+								if y.Val == v {
+									if _, isAlloc := y.Addr.(*ssa.Alloc); isAlloc {
+										// a local variable: follow its loads
+										for _, l := range loadsOfAddr(y.Addr) {
+											follow(l, depth+1)
+										}
+									} else {
+										bad = ref
+									}
+								}
+							case *ssa.Slice:
+								follow(y, depth+1)
+							case *ssa.Phi:
+								follow(y, depth+1)
+							case *ssa.MakeInterface:
+								follow(y, depth+1)
+							}
+						}
+					}
+					follow(c, 0)
+				})
+			})
+			where := posOf(p, ins)
+			if bad != nil {
+				where = posOf(p, bad)
+			}
+			r.Check(fmt.Sprintf("%s pooled buffer#%d stays inside", fnName(top), per[top]), bad == nil, where, fnName(top), "the slice returned by Bytes() of a buffer that goes back to the pool leaves the function: the next Get overwrites the message the caller still holds")
+		})
+	}
+	r.Stat("pool_puts", n)
 }
